@@ -436,7 +436,8 @@ Proof.
     destruct ok; exact H.
   - destruct (fresh st n); cbn [negb fst]; [|split; reflexivity].
     pose proof (admit_pub_cnt cf st PsPs s n (fx_f09 fx)) as H. destruct (admit_pub cf st PsPs s n (fx_f09 fx)) as [[st1 ok] g]. cbn [fst] in *.
-    destruct ok; exact H.
+    destruct ok; [destruct listen; cbn [fst]|]; try exact H.
+    destruct (get_or_create_cnt cf st s) as [H1 H2]. cbn [add_sess st_cnt st_atts st_set_sess]. unfold add_sess. simpl. rewrite H1, H2. split; reflexivity.
   - destruct (find_sess n (st_sess st)) as [x|]; cbn [fst]; [|split; reflexivity].
     destruct (s_gone x); cbn [fst]; [split; reflexivity|].
     destruct (s_kind x); cbn [fst]; try (split; reflexivity);
